@@ -48,16 +48,19 @@ SPEC = {
         'DblText.floorLog10_lt', 'DblText.sigDigits_bounds', 'DblText.stripZeros_spec', 'DblText.accMant_shape', 'DblText.floatValue_shape',
         'DblText.scanDQ_shape', 'DblText.scanDQ_gText', 'scanDQ_gText_sigDigits', 'scanDQ_zero', 'scanDQ_printDQ', 'scanDQ_printDQ_17', 'ratIO_RT',
         # round trips of every kind at the source's precisions with NO numeric assumption (values = finite doubles)
-        'ratIO_Dbl17', 'roundtrip_dmodel_final', 'roundtrip_smodel_final', 'roundtrip_dexp_final', 'roundtrip_sexp_final',
+        'ratIO_Dbl17', 'isDblB_iff_IsDbl', 'roundtrip_dmodel_final', 'roundtrip_smodel_final', 'roundtrip_dexp_final', 'roundtrip_sexp_final',
         'roundtrip_mpol_final', 'roundtrip_ppol_final', 'roundtrip_pd_final', 'roundtrip_ps_final', 'roundtrip_pdd_final',
         'roundtrip_vec_final', 'load_dmodel_final', 'isDbl_half', 'isDbl_one', 'isDbl_third',
         # consecutive loads on one stream: atomic each, failures sticky, sequences round-trip
         'loadOn_good', 'loadSeq_failed', 'loadSeq_length', 'loadSeq_atomic', 'loadSeq_sticky', 'loadSeq_roundtrip',
+        # helpers one level down: what isProbability (dense / sparse) guarantees about any object a load returns
+        'abs_excess_le', 'sparseRowOk_bounds', 'rowOk_bounds', 'loaded_dmodel_probabilities', 'loaded_smodel_probabilities',
         # finding C17-4 (writers inherit the caller's notation): witnesses on the model's printf %.17f
         'isDbl_smallThird', 'fixed17_counterexample', 'fixed17_tiny_counterexample',
     ]],
     # obligations over the regenerated module AITB.Gen.IOPrec (re-proved against the source on every run)
-    'gen_obligations': [_T + 'IOPrec_utils_ge_17', _T + 'IOPrec_pomdpPolicy', _T + 'IOPrec_commit_last'],
+    'gen_obligations': [_T + 'IOPrec_utils_ge_17', _T + 'IOPrec_pomdpPolicy', _T + 'IOPrec_commit_last',
+                        _T + 'IOPrec_formatted_only', _T + 'IOPrec_never_clears'],
     'harness': 'harness/c17.cpp',
     'level': 'proof',
     'timeout': {'quick': 600, 'thorough': 2400},
@@ -66,17 +69,17 @@ SPEC = {
             'POMDP::Policy, POMDP::Model/SparseModel over dense/sparse MDPs, bare Vector), alternating dyadic and "ugly" values (1/3, 0.1, '
             'DBL_MAX, denormals, random bit patterns); cases 0-3 are fixed witnesses (precision, 2^53+1 count, copied policy, '
             'IncrementalPruning tiger policy + tiger model). Protocol lines per case: rt (write, load into a different destination with a '
-            'trailer behind, compare bits, unread rest, decisions), trunc (EVERY strict byte prefix), corrupt (every token x 9 corruptions), '
-            'bcorrupt (24/60 single-byte overwrites), xload x6 (neighbouring destination shapes). Every single load is replayed by the Lean '
+            'trailer behind, compare bits, unread rest, decisions), trunc (EVERY strict byte prefix), corrupt (every token x 13 corruptions), '
+            'bcorrupt (24/60 single-byte overwrites), xload x6 (neighbouring destination shapes), fmt (7 formatting states of the writing stream), seq x4 (x, y, x of two kinds through one stream: clean / one token of the first, middle, last object corrupted), rtbits (negative zeros); corruptions now include sign flip, 0, and compensated negatives (1.5, -0.5 on neighbours); every load is repeated on a stream with exceptions(failbit|badbit). Every single load is replayed by the Lean '
             'reader on the same bytes (signal, object, unread rest). non-trivial = every line; distinct by line',
     'modelled': ['src/Utils/IO.cpp: every write()/read() overload',
                  'src/MDP/IO.cpp: operator<< / operator>> of Experience, SparseExperience, Model, SparseModel, PolicyInterface/Policy',
                  'include/AIToolbox/POMDP/IO.hpp: operator<< / operator>> of POMDP::Model<M>, POMDP::SparseModel<M>',
                  'src/POMDP/IO.cpp: operator<< / operator>> of POMDP::Policy, checkRemoveAtSign',
                  'libstdc++ num_get for unsigned long and double, printf %.{p}g, Eigen setFromTriplets, isProbability, setDiscount guard: modelled, tied by the differential run'],
-    'assumptions': ['17 significant digits identify a double (hypothesis RT / Dbl17 of the round-trip theorems; evaluated by the driver on every value of every generated object: rt lines compare the model reload with the original)',
+    'assumptions': ['every number of a saved object is a finite double (hypothesis IsDbl of the *_final round-trip theorems; evaluated by the driver on every value of every generated object). That 17 significant digits identify a double is no longer assumed: scanDQ_printDQ / ratIO_RT',
                     'non-finite values (inf/nan are written as text no reader accepts) are outside the quantifier',
                     'isProbability sums are exact rationals in the model (doubles in the code): outcomes whose margin to the 1e-6 tolerance is below 1e-9 are tagged ill_conditioned and not judged'],
-    'trusted_base': ['tools/extract_c17.py (writer precisions, sparse-table value type, commit-last discipline -> AITB.Gen.IOPrec)',
+    'trusted_base': ['tools/extract_c17.py (writer precisions, sparse-table value type, commit-last discipline, formatted-extraction-only and never-clears discipline of every reader -> AITB.Gen.IOPrec)',
                      'decide +kernel (kernel evaluation, no compiler trust) for the five witness theorems'],
 }
